@@ -69,6 +69,8 @@ var shapeFocus = map[string]string{
 	"authz-held-at-close":                  "authzMessage close handleInboundMessages",
 	"join-in-burst":                        "AttachClient handleSession onJoin close closeLock",
 	"pending-calls":                        "syncCall syncCancel close dealer timerCancel",
+	"bad-realm-uri":                        "addRealm AddRealm newRealm newBroker newDealer RealmTemplate AttachClient",
+	"removerealm-during-auth":              "getAuthenticator authClient RemoveRealm AttachClient close actionChan",
 }
 
 var c07Shapes = []struct {
@@ -87,7 +89,7 @@ var c06Shapes = []struct {
 	{"random", 30}, {"armed-timer", 6}, {"publish-racing-close", 10}, {"stalled-metacall-then-close", 6},
 	{"meta-in-flight", 6}, {"hello-goodbye", 6}, {"kill-then-close", 5}, {"drop-then-close", 5},
 	{"cancelled-stalled-metacall", 6}, {"publish-held-until-subscriber-closed", 5}, {"authz-held-at-close", 4},
-	{"join-in-burst", 5}, {"pending-calls", 6},
+	{"join-in-burst", 5}, {"pending-calls", 6}, {"bad-realm-uri", 5}, {"removerealm-during-auth", 5},
 }
 
 type genOpts struct {
@@ -869,6 +871,39 @@ func genC06Base(o *genOpts, k int) *History {
 			}
 		}
 		b.add(Op{Op: "burst", Ops: ops})
+	case "bad-realm-uri":
+		// A realm URI the router must refuse, through the realm template
+		// (join) and through AddRealm; also a join to an unknown realm.
+		h.Template = r.chance(75)
+		b.reserve = 4
+		b.population(0, r.between(1, 3))
+		b.randomOps(pre)
+		b.reserve = 0
+		bad := []string{"bad realm", "a..b"}[r.intn(2)]
+		for i := r.between(1, 2); i > 0; i-- {
+			b.track(false)
+			b.alive[len(b.alive)-1] = false
+			b.add(Op{Op: "join", Realm: bad, Q: 2})
+		}
+		if r.chance(60) {
+			b.add(Op{Op: "addrealm", Realm: bad})
+		}
+		if !h.Template || r.chance(30) {
+			b.track(false)
+			b.alive[len(b.alive)-1] = false
+			b.add(Op{Op: "join", Realm: "nosuch.realm", Q: 2})
+		}
+	case "removerealm-during-auth":
+		// The attach goroutine is parked in authClient (IsLocal) while the
+		// realm is removed / the router closed, then goes on.
+		h.LocalAuth = true
+		b.reserve = 1
+		b.population(0, r.between(1, 3))
+		b.randomOps(pre)
+		b.reserve = 0
+		b.track(false)
+		b.alive[len(b.alive)-1] = false
+		b.add(Op{Op: "join", Realm: h.Realms[0], Q: 2, HoldUntil: "closed"})
 	case "pending-calls":
 		_, by := b.population(0, r.between(3, 5))
 		b.add(Op{Op: "register", S: by[0], Proc: "p1"})
@@ -895,7 +930,7 @@ func genC06Base(o *genOpts, k int) *History {
 func expandC06(o *genOpts, k int, base *History) []*History {
 	r := subRng(o.seed, "C06x", k)
 	kinds := []string{"Close"}
-	if o.thorough {
+	if o.thorough || base.Shape == "removerealm-during-auth" {
 		kinds = append(kinds, "RemoveRealm")
 	} else if r.chance(30) {
 		kinds = []string{"RemoveRealm"}
@@ -960,7 +995,7 @@ func expandC06(o *genOpts, k int, base *History) []*History {
 			switch x.Op {
 			case "join", "hello_goodbye":
 				bb.track(false)
-				if x.Op == "hello_goodbye" {
+				if x.Op == "hello_goodbye" || x.HoldUntil != "" {
 					bb.alive[len(bb.alive)-1] = false
 				}
 			case "leave", "drop":
